@@ -167,7 +167,7 @@ func runC18(c *Ctx, idx int) {
 		return
 	}
 	scalarCases := len(refActs) * c18Batches
-	n := 12000
+	n := 60000
 	if c.Tier == "thorough" {
 		n = 400000
 	}
@@ -217,7 +217,7 @@ func c18Scalar(c *Ctx, ra *refAct, xs []float64) {
 			c.Violate("range", d(), "%s(%v) = %v is outside the documented range [%v, %v]", ra.name, x, y, ra.lo, ra.hi)
 			return
 		}
-		if math.Abs(y-w) > 1e-12*(1+math.Abs(w)) {
+		if math.Abs(y-w) > 1e-12*math.Max(math.Abs(w), math.Abs(y))+1e-18 {
 			c.Violate("value", d(), "%s(%v) = %v, the closed form gives %v", ra.name, x, y, w)
 			return
 		}
